@@ -47,6 +47,8 @@ var keyProps = map[string][]string{
 	"failed-truncate-left-trace":       {"C04", "C05"},
 	"failed-confirm-left-trace":        {"C04", "C05"},
 	"undo-todo-wrong":                  {"C04"},
+	"ledger-race-not-serialisable":     {"C04"},
+	"dump-incomplete":                  {"C04"},
 	"tip-":                             {"C04"}, "path-": {"C04"}, "stored-set": {"C04", "C05"}, "query-block-failed": {"C04"}, "block-vs-header": {"C04", "C05"},
 	"height-": {"C04"}, "block-above-trunk": {"C04"}, "intrunk-flag": {"C04"}, "next-link": {"C04"}, "tx-": {"C04"}, "branch-tips": {"C04"},
 	"tip-snapshot-": {"C18"},
@@ -76,7 +78,7 @@ var profiles = map[string]*Profile{
 		EndChecks: []string{"sync", "obs"}},
 	"C05": {Name: "failures", Steps: 30, Fee: []bool{false, true}, Windows: []int64{0, 2},
 		W: map[string]int{"xfer": 4, "xfer-bad": 5, "ktx": 4, "ktx-old": 3, "resubmit": 2, "badblock": 5, "mine": 3, "foreign": 3, "fork": 3,
-			"walk": 2, "cmpcopy": 4, "sync": 2, "fault": 5, "mine-auto": 3, "xfer-hold": 1, "submit-held": 1, "balrace": 3},
+			"walk": 2, "cmpcopy": 4, "reopen": 2, "badswitch": 2, "sync": 2, "fault": 5, "mine-auto": 3, "xfer-hold": 1, "submit-held": 1, "balrace": 3},
 		EndChecks: []string{"cmpcopy", "sync", "cmpcopy"}},
 	"C06": {Name: "crash", Steps: 26, Fee: []bool{false, true}, Windows: []int64{0},
 		W:         map[string]int{"xfer": 6, "ktx": 6, "mine": 5, "foreign": 5, "fork": 5, "walk": 3, "sync": 3, "xfer-bad": 1, "truncate": 2, "badblock": 1, "bad-truncate": 2},
@@ -88,7 +90,7 @@ var profiles = map[string]*Profile{
 		W:         map[string]int{"xfer": 2, "ktx": 2, "mine": 6, "foreign": 5, "fork": 7, "walk": 6, "sync": 3, "reopen": 2, "badblock": 2, "truncate": 2, "walkrace": 4},
 		EndChecks: []string{"sync", "obs"}},
 	"C18": {Name: "snapshots", Steps: 34, Fee: []bool{false}, Windows: []int64{0},
-		W:         map[string]int{"ktx": 12, "mine": 6, "foreign": 4, "fork": 3, "walk": 2, "sync": 2, "snap": 3, "xfer": 1},
+		W:         map[string]int{"ktx": 12, "mine": 6, "foreign": 4, "fork": 3, "walk": 2, "sync": 2, "snap": 3, "xfer": 1, "badswitch": 3},
 		EndChecks: []string{"snap", "sync", "snap"}},
 }
 
